@@ -1,1 +1,359 @@
-/- C02: property theorems go here (only property theorems, non-vacuity examples, #print axioms). -/
+import StorageModel.Query.BoltProofs
+import StorageModel.Generated.PagingFacts
+/-
+  C02 — Sort order, skip, limit and total count are exact.
+
+  "For every dataset and query, the returned id list equals the matching entities ordered by the
+  requested sort fields (each ascending or descending, null values first when ascending, remaining
+  ties broken by id ascending; default order id ascending), with the first max(skip,0) rows dropped
+  and at most limit rows kept, where an absent, negative or 'none' limit means unbounded.  The
+  returned count always equals the total number of matching entities regardless of skip and limit,
+  and the same answer is produced whichever scan strategy or cursor-style iteration serves the
+  query."
+
+  Model: Query/Paging.lean (setPaging, uniqueIndexScanner.ScanCursor / Next / Seek,
+  sortingScanner.ScanCursor with the llrb tree as a strictly sorted list, int64 counters that wrap),
+  Query/Compare.lean (the symbol comparators and newRowComparator), Query/Bolt.lean (NewScanner,
+  QueryIdsC, QueryWithCursorC, IterateIds, skip/limit parsing).  Spec: Query/Spec.lean (`page`,
+  `total`).  The paging arithmetic is the one the `paging` extractor reads from the source on every
+  run (`Generated.boltzPaging`).
+
+  Hypotheses that appear below, all explicit:
+    * `BucketOrdered rows`      the entities bucket yields ids in ascending byte order (bbolt)
+    * `NoNaNKeys sort r`        no float64 sort key is NaN (Go's `<` is not an order on NaN)
+    * `Paging.InRange`          skip and limit are int64 values
+    * `rows.length ≤ maxI64`    fewer than 2^63 rows (the counters are int64)
+-/
+namespace StorageModel.Properties.C02
+open StorageModel StorageModel.Query
+
+/-- Obligation on regenerated data: `setPaging`, `maxResults` and the eviction test in
+    boltz/query_scanners.go have the expected shape (negative skip clamped, overflow guarded,
+    strict `>`). -/
+theorem paging_facts_expected : Generated.boltzPaging = expectedPaging := by decide
+
+/-- **comparator_strict_total.**  The comparator built for any list of sort fields (per-type
+    comparison, nulls first, direction flip, trailing `id asc`) is a strict total order on any set
+    of rows with distinct ids and no NaN sort key. -/
+theorem comparator_strict_total {schema : Schema} {sort : List SortField} {c : Cmp Row} {rows : List Row}
+    (hid : HasIdSymbol schema) (hc : newRowComparator schema sort = .ok c)
+    (hnan : ∀ r ∈ rows, NoNaNKeys sort r) (hd : DistinctIds rows) :
+    StrictTotalOn (fun r => r ∈ rows) c :=
+  newRowComparator_strict hid hc hnan hd
+
+/-- **the requested order, in closed form.**  The row comparator is: one symbol comparator per
+    requested sort field, in the order requested and in the requested direction, then `id`
+    ascending; the first comparator that does not tie decides. -/
+theorem order_closed_form {schema : Schema} {sort : List SortField} {c : Cmp Row} (hid : HasIdSymbol schema)
+    (hc : newRowComparator schema sort = .ok c) :
+    c = chain ((sort.map fun f => symCmp (tyOf schema f.name) f.name f.asc) ++ [symCmp .string "id" true]) :=
+  newRowComparator_closed hid hc
+
+/-- lexicographic reading: `a` sorts before `b` iff some field (or finally the id) puts it first and
+    all earlier fields tie -/
+theorem order_lexicographic {schema : Schema} {sort : List SortField} {c : Cmp Row} (hid : HasIdSymbol schema)
+    (hc : newRowComparator schema sort = .ok c) (a b : Row) :
+    c a b = .lt ↔ ∃ pre d post,
+      (sort.map fun f => symCmp (tyOf schema f.name) f.name f.asc) ++ [symCmp .string "id" true] = pre ++ d :: post ∧
+      (∀ e ∈ pre, e a b = .eq) ∧ d a b = .lt := by
+  rw [order_closed_form hid hc]; exact chain_lt_iff _ a b .lt (by decide)
+
+/-- remaining ties are broken by id ascending (byte order) -/
+theorem ties_broken_by_id {schema : Schema} {sort : List SortField} {c : Cmp Row} (hid : HasIdSymbol schema)
+    (hc : newRowComparator schema sort = .ok c) (a b : Row)
+    (htie : ∀ f ∈ sort, symCmp (tyOf schema f.name) f.name f.asc a b = .eq) : c a b = cmpBytes a.id b.id := by
+  rw [order_closed_form hid hc, chain_all_eq _ _ _ _ (by
+    intro d hd
+    obtain ⟨f, hf, rfl⟩ := List.mem_map.1 hd
+    exact htie f hf), symCmp_id]
+  rfl
+
+/-- the value a symbol comparator of type `ty` reads is null (nil pointer after `FieldTo*`) -/
+def keyIsNull (ty : SymType) (v : Stored) : Bool :=
+  match ty with
+  | .bool => (fieldToBool v).isNone
+  | .datetime => (fieldToDatetime v).isNone
+  | .float64 => (fieldToFloat64 v).isNone
+  | .int64 => (fieldToInt64 v).isNone
+  | .string => (fieldToString v).isNone
+  | .other => true
+
+/-- null sort keys come first when ascending and last when descending -/
+theorem nulls_first_ascending (ty : SymType) (name : String) (a b : Row)
+    (ha : keyIsNull ty (evalSym name a) = true) (hb : keyIsNull ty (evalSym name b) = false) :
+    symCmp ty name true a b = .lt ∧ symCmp ty name false a b = .gt := by
+  have key : ∀ {κ : Type} (base : κ → κ → Ordering) (y : Option κ), y.isNone = false →
+      nullsFirst base none y = .lt ∧ (nullsFirst base none y).swap = .gt := by
+    intro κ base y hy
+    cases y with
+    | none => cases hy
+    | some v => exact ⟨rfl, rfl⟩
+  cases ty <;> simp only [keyIsNull, Option.isNone_iff_eq_none] at ha hb
+  case other => cases hb
+  all_goals
+    simp only [symCmp, dir, ha, if_true, Bool.false_eq_true, if_false]
+    exact key _ _ hb
+
+/-- a strictly sorted permutation of the matching rows is what the specification calls their
+    sort: `page` does not depend on the sorting algorithm written in Query/Sorted.lean -/
+theorem sort_characterised {P : Row → Prop} {c : Cmp Row} (hc : StrictTotalOn P c) {xs l : List Row}
+    (hP : ∀ a ∈ xs, P a) (hnd : xs.Nodup) : (l.Perm xs ∧ Sorted c l) ↔ l = sort c xs :=
+  ⟨fun h => sort_unique hc hP hnd h.1 h.2, fun h => h ▸ ⟨sort_perm c xs, sort_sorted hc hP hnd⟩⟩
+
+/-- **k_smallest_stream** (core lemma of the bounded result tree).  Inserting every row into the
+    tree and cutting it back to `k` rows after each insertion leaves exactly the first `k` rows of
+    the sorted input. -/
+theorem k_smallest_stream {P : Row → Prop} {c : Cmp Row} (hc : StrictTotalOn P c) (k : Nat) {xs : List Row}
+    (hP : ∀ a ∈ xs, P a) (hnd : xs.Nodup) :
+    xs.foldl (fun t x => (tins c x t).take k) [] = (sort c xs).take k := by
+  have := bounded_fold c k [] xs
+  simp only [List.take_nil] at this
+  rw [this, (foldl_tins_eq_sort hc hP hnd).1]
+
+/-- what `setPaging` leaves in the scanner and in the query object: absent skip → 0, negative skip
+    clamped to 0 (scanner only), absent / negative / `none` limit → MaxInt64, and the defaults are
+    written back into the query. -/
+theorem set_paging_exact (q : Paging) :
+    setPaging Generated.boltzPaging q =
+      (⟨some (q.skip.getD 0), some (match q.limit with | none => maxI64 | some l => if l < 0 then maxI64 else l)⟩,
+       ⟨max (q.skip.getD 0) 0, match q.limit with | none => maxI64 | some l => if l < 0 then maxI64 else l⟩) := by
+  rw [paging_facts_expected]
+  exact Prod.ext (setPaging_writeback q) (setPaging_target q)
+
+/-- a query object that already went through a scan pages the same way when it is run again -/
+theorem set_paging_idempotent (q : Paging) :
+    setPaging Generated.boltzPaging (setPaging Generated.boltzPaging q).1 = setPaging Generated.boltzPaging q := by
+  rw [paging_facts_expected]; exact setPaging_idempotent q
+
+/-- **index_scan_exact.**  When `NewScanner` chooses the index scanner (no sort field, or `id`
+    first, either direction), `QueryIdsC` returns the page of the matching rows under the row
+    comparator of the requested sort fields, and the total number of matching rows. -/
+theorem index_scan_exact (st : BoltStore) (rows : List Row) (q : Query) (fwd : Bool) (c : Cmp Row)
+    (hb : st.bucket = some rows) (hord : BucketOrdered rows) (hid : HasIdSymbol st.schema)
+    (hs : newScanner q.sort = .index fwd) (hc : newRowComparator st.schema q.sort = .ok c)
+    (hnan : ∀ r ∈ rows, NoNaNKeys q.sort r) (hq : q.paging.InRange) (hlen : (rows.length : Int) ≤ maxI64) :
+    queryIdsC Generated.boltzPaging st q =
+      .ok (page c q.paging.skip q.paging.limit (matching (st.env q.filter) rows),
+           total (matching (st.env q.filter) rows)) := by
+  rw [paging_facts_expected]
+  have hstrict := newRowComparator_strict hid hc hnan hord.distinct
+  have hmlen : ∀ l : List Row, l.Perm rows → ((matching (st.env q.filter) l).length : Int) ≤ maxI64 := by
+    intro l hl
+    have : (matching (st.env q.filter) l).length ≤ l.length := List.length_filter_le ..
+    rw [hl.length_eq] at this; omega
+  simp only [queryIdsC, hb, scanCursor, hs]
+  rw [idxScan_spec _ _ _ hq (hmlen _ (bucketCursor_perm rows fwd))]
+  have hperm := matching_perm (st.env q.filter) (bucketCursor_perm rows fwd)
+  have hsorted := index_cursor_sorted hid hs hc hord (st.env q.filter)
+  have hPm : ∀ a ∈ matching (st.env q.filter) rows, a ∈ rows := fun a ha => (List.mem_filter.1 ha).1
+  have hnd : (matching (st.env q.filter) rows).Nodup := hord.distinct.nodup.sublist List.filter_sublist
+  have heq := sort_unique hstrict hPm hnd hperm hsorted
+  rw [page_eq_target c q.paging _ (hmlen rows (.refl _)), ← heq]
+  simp only [total, hperm.length_eq]
+
+/-- **sorting_scan_exact.**  When `NewScanner` chooses the sorting scanner, `QueryIdsC` returns the
+    page of the matching rows under the row comparator, and the total number of matching rows — for
+    every skip and limit in int64 (negative, 0, MaxInt64, beyond the end, absent, none). -/
+theorem sorting_scan_exact (st : BoltStore) (rows : List Row) (q : Query) (c : Cmp Row)
+    (hb : st.bucket = some rows) (hord : BucketOrdered rows) (hid : HasIdSymbol st.schema)
+    (hs : newScanner q.sort = .sorting) (hc : newRowComparator st.schema q.sort = .ok c)
+    (hnan : ∀ r ∈ rows, NoNaNKeys q.sort r) (hq : q.paging.InRange) (hlen : (rows.length : Int) ≤ maxI64) :
+    queryIdsC Generated.boltzPaging st q =
+      .ok (page c q.paging.skip q.paging.limit (matching (st.env q.filter) rows),
+           total (matching (st.env q.filter) rows)) := by
+  rw [paging_facts_expected]
+  have hstrict := newRowComparator_strict hid hc hnan hord.distinct
+  have hmlen : ((matching (st.env q.filter) rows).length : Int) ≤ maxI64 := by
+    have : (matching (st.env q.filter) rows).length ≤ rows.length := List.length_filter_le ..
+    omega
+  simp only [queryIdsC, hb, scanCursor, hs, hc, bucketCursor, if_true]
+  rw [sortScan_spec hstrict _ _ _ hq (fun a ha => ha) hord.distinct.nodup hmlen]
+
+/-- **query_ids_exact** (the property, for the bolt store): whatever strategy serves the query,
+    the answer is the page of the matching rows in the requested order and their total number. -/
+theorem query_ids_exact (st : BoltStore) (rows : List Row) (q : Query) (c : Cmp Row)
+    (hb : st.bucket = some rows) (hord : BucketOrdered rows) (hid : HasIdSymbol st.schema)
+    (hc : newRowComparator st.schema q.sort = .ok c)
+    (hnan : ∀ r ∈ rows, NoNaNKeys q.sort r) (hq : q.paging.InRange) (hlen : (rows.length : Int) ≤ maxI64) :
+    queryIdsC Generated.boltzPaging st q =
+      .ok (page c q.paging.skip q.paging.limit (rows.filter fun r => !st.childSkip r && sat r q.filter),
+           total (rows.filter fun r => !st.childSkip r && sat r q.filter)) := by
+  have hm : matching (st.env q.filter) rows = rows.filter fun r => !st.childSkip r && sat r q.filter := by
+    simp only [matching, BoltStore.env, bolt_eval_sat]
+    congr 1
+  rw [← hm]
+  cases hs : newScanner q.sort with
+  | index fwd => exact index_scan_exact st rows q fwd c hb hord hid hs hc hnan hq hlen
+  | sorting => exact sorting_scan_exact st rows q c hb hord hid hs hc hnan hq hlen
+
+/-- **cursor_provider_exact.**  `QueryWithCursorC` with a cursor provider that yields a sub-sequence
+    of the bucket in key order (forward) or reverse key order — as the bucket's own `OpenCursor`,
+    `IteratorMatchingAllOf` and `IteratorMatchingAnyOf` do — answers with the page and count of the
+    matching rows among those the provider yields. -/
+theorem cursor_provider_exact (st : BoltStore) (sub : List Row) (q : Query) (c : Cmp Row)
+    (hord : BucketOrdered sub) (hid : HasIdSymbol st.schema)
+    (hc : newRowComparator st.schema q.sort = .ok c)
+    (hnan : ∀ r ∈ sub, NoNaNKeys q.sort r) (hq : q.paging.InRange) (hlen : (sub.length : Int) ≤ maxI64) :
+    queryWithCursorC Generated.boltzPaging st q (fun fwd => some (bucketCursor sub fwd)) =
+      .ok (page c q.paging.skip q.paging.limit (sub.filter fun r => !st.childSkip r && sat r q.filter),
+           total (sub.filter fun r => !st.childSkip r && sat r q.filter)) :=
+  query_ids_exact { st with bucket := some sub } sub q c rfl hord hid hc hnan hq hlen
+
+/-- the listener's reading of `skip N` / `limit N` / `limit none` pages exactly as the text asks:
+    `limit none` (pushed as -1) is "no limit" -/
+theorem paging_tokens_exact (skip : Option NumTok) (limit : Option LimitTok) (p : Paging)
+    (h : parsePaging skip limit = .ok p) (c : Cmp Row) (xs : List Row) :
+    page c p.skip p.limit xs = page c (tokSkip skip) (tokLimit limit) xs := by
+  cases skip with
+  | none =>
+    cases limit with
+    | none => simp [parsePaging] at h; subst h; rfl
+    | some l =>
+      cases l with
+      | none_ => simp [parsePaging] at h; subst h; simp [page, limitRows, tokSkip, tokLimit]
+      | num n => cases n with
+        | int v => simp [parsePaging] at h; subst h; rfl
+        | nonInt => simp [parsePaging] at h
+  | some sk =>
+    cases sk with
+    | nonInt => simp [parsePaging] at h
+    | int s =>
+      cases limit with
+      | none => simp [parsePaging] at h; subst h; rfl
+      | some l =>
+        cases l with
+        | none_ => simp [parsePaging] at h; subst h; simp [page, limitRows, tokSkip, tokLimit]
+        | num n => cases n with
+          | int v => simp [parsePaging] at h; subst h; rfl
+          | nonInt => simp [parsePaging] at h
+
+/-- **strategy_independent.**  On a query the index scanner can serve (no sort field or `id`
+    first), the sorting scanner run with the same comparator gives the same ids and count. -/
+theorem strategy_independent (st : BoltStore) (rows : List Row) (q : Query) (fwd : Bool) (c : Cmp Row)
+    (hord : BucketOrdered rows) (hid : HasIdSymbol st.schema)
+    (hs : newScanner q.sort = .index fwd) (hc : newRowComparator st.schema q.sort = .ok c)
+    (hnan : ∀ r ∈ rows, NoNaNKeys q.sort r) (hq : q.paging.InRange) (hlen : (rows.length : Int) ≤ maxI64) :
+    sortScan Generated.boltzPaging c (st.env q.filter) q.paging (some rows) =
+      idxScan Generated.boltzPaging (st.env q.filter) q.paging (some (bucketCursor rows fwd)) := by
+  have h1 := index_scan_exact { st with bucket := some rows } rows q fwd c rfl hord hid hs hc hnan hq hlen
+  simp only [queryIdsC, scanCursor, hs] at h1
+  have h1' := Except.ok.inj h1
+  have hstrict := newRowComparator_strict hid hc hnan hord.distinct
+  have hmlen : ((matching (st.env q.filter) rows).length : Int) ≤ maxI64 := by
+    have : (matching (st.env q.filter) rows).length ≤ rows.length := List.length_filter_le ..
+    omega
+  rw [paging_facts_expected] at h1' ⊢
+  rw [sortScan_spec hstrict _ _ _ hq (fun a ha => ha) hord.distinct.nodup hmlen]
+  exact h1'.symm
+
+/-- **count_exact.**  The count does not depend on skip and limit. -/
+theorem count_exact (st : BoltStore) (rows : List Row) (q : Query) (p' : Paging) (c : Cmp Row)
+    (hb : st.bucket = some rows) (hord : BucketOrdered rows) (hid : HasIdSymbol st.schema)
+    (hc : newRowComparator st.schema q.sort = .ok c)
+    (hnan : ∀ r ∈ rows, NoNaNKeys q.sort r) (hq : q.paging.InRange) (hq' : p'.InRange)
+    (hlen : (rows.length : Int) ≤ maxI64) :
+    (queryIdsC Generated.boltzPaging st q).map (·.2) =
+      (queryIdsC Generated.boltzPaging st { q with paging := p' }).map (·.2) := by
+  rw [query_ids_exact st rows q c hb hord hid hc hnan hq hlen,
+    query_ids_exact st rows { q with paging := p' } c hb hord hid hc hnan hq' hlen]
+  rfl
+
+/-- the count of the sorting scan is the number of matching rows for *any* comparator — also when
+    sort keys are NaN and the order itself is undefined -/
+theorem count_exact_any_comparator (c : Cmp Row) (env : ScanEnv Row) (q : Paging) (cur : List Row)
+    (hlen : ((matching env cur).length : Int) ≤ maxI64) :
+    (sortScan Generated.boltzPaging c env q (some cur)).2 = total (matching env cur) := by
+  simp only [sortScan]
+  rw [sortLoop_count _ c env _ cur {} (by simp) (by simpa using hlen)]
+  simp [total]
+
+/-- **cursor_iter_exact.**  Draining `IterateIds(tx, query)` yields the page of the matching rows in
+    id order (a filtered cursor cannot sort: the sort fields are ignored). -/
+theorem cursor_iter_exact (st : BoltStore) (rows : List Row) (q : Query) (c : Cmp Row)
+    (hb : st.bucket = some rows) (hord : BucketOrdered rows) (hid : HasIdSymbol st.schema)
+    (hc : newRowComparator st.schema [] = .ok c) (hq : q.paging.InRange) (hlen : (rows.length : Int) ≤ maxI64) :
+    iterateIds Generated.boltzPaging st q =
+      page c q.paging.skip q.paging.limit (matching (st.env q.filter) rows) := by
+  have h := index_scan_exact st rows { q with sort := [] } true c hb hord hid rfl hc
+    (fun _ _ _ hf => nomatch hf) hq hlen
+  rw [paging_facts_expected] at h ⊢
+  simp only [queryIdsC, hb, scanCursor, newScanner, sortMax, List.length_nil, Nat.not_lt_zero, if_false,
+    bucketCursor, if_true] at h
+  have hmlen : ((matching (st.env q.filter) rows).length : Int) ≤ maxI64 := by
+    have : (matching (st.env q.filter) rows).length ≤ rows.length := List.length_filter_le ..
+    omega
+  rw [idxScan_spec _ _ _ hq hmlen] at h
+  simp only [iterateIds, hb]
+  rw [iterate_spec _ _ _ hq]
+  exact congrArg Prod.fst (Except.ok.inj h)
+
+/-- `Seek(v)` on an unpaged `IterateIds` cursor (any state it can be in), then draining: the matching
+    rows from the first id ≥ v on. -/
+theorem cursor_seek_exact (env : ScanEnv Row) (v : Bytes) (c : PagedCursor Row)
+    (ho : 0 ≤ c.offset) (hc : 0 ≤ c.collected) (hlen : c.collected + (c.all.length : Int) < maxI64) :
+    drain ⟨0, maxI64⟩ env (c.all.length + 1) (c.seek ⟨0, maxI64⟩ env (fun r => cmpBytes r.id v == .lt)) =
+      matching env (c.all.dropWhile (fun r => cmpBytes r.id v == .lt)) :=
+  seek_spec env _ c ho hc hlen
+
+/-! ### non-vacuity and the arithmetic the pinned tree had -/
+
+def exSchema : Schema := [("id", ⟨.string, false⟩), ("s", ⟨.string, false⟩), ("f", ⟨.float64, false⟩)]
+def exRows : List Row :=
+  [⟨[97], [("s", .string [120]), ("f", .float64 0)]⟩,
+   ⟨[98], [("s", .nil), ("f", .float64 4607182418800017408)]⟩,
+   ⟨[99], [("s", .string [120]), ("f", .nil)]⟩]
+def exStore : BoltStore := { schema := exSchema, bucket := some exRows }
+def exQuery : Query := ⟨.tt, [⟨"s", true⟩], ⟨some 1, none⟩⟩
+/-- ids and count of an answer (for the concrete examples) -/
+def answer : Except SortErr (List Row × Int) → Option (List Bytes × Int)
+  | .ok r => some (r.1.map (·.id), r.2)
+  | .error _ => none
+
+/-- the hypotheses are satisfiable by a store with ties and nulls -/
+example : BucketOrdered exRows ∧ HasIdSymbol exSchema ∧ (∀ r ∈ exRows, NoNaNKeys exQuery.sort r) ∧
+    exQuery.paging.InRange ∧ newScanner exQuery.sort = .sorting := by
+  refine ⟨by unfold BucketOrdered; decide, by unfold HasIdSymbol; decide, ?_,
+    ⟨by intro s h; cases h; unfold InI64; decide, by intro l h; cases h⟩, by decide⟩
+  intro r hr f hf
+  simp only [exQuery, List.mem_singleton] at hf
+  subst hf
+  intro bits hb
+  simp only [exRows, List.mem_cons, List.mem_nil_iff, or_false] at hr
+  rcases hr with rfl | rfl | rfl <;> simp [evalSym, Row.get, List.lookup] at hb
+
+/-- `sort by s skip 1` (no limit): null first, then the tie on "x" broken by id; one row dropped -/
+example : answer (queryIdsC expectedPaging exStore exQuery) = some ([[97], [99]], 3) := by decide
+
+/-- the arithmetic before e51f293 (no overflow guard): `skip 1` without limit makes
+    `targetOffset + targetLimit` wrap negative, every row is evicted -/
+theorem pinned_arithmetic_violates :
+    answer (queryIdsC pinnedPaging exStore exQuery) = some ([], 3) := by decide
+
+/-- ... and a negative skip shrank the window: `skip -2 limit 2` kept nothing -/
+example : answer (queryIdsC pinnedPaging exStore { exQuery with paging := ⟨some (-2), some 2⟩ }) = some ([], 3) := by decide
+example : answer (queryIdsC expectedPaging exStore { exQuery with paging := ⟨some (-2), some 2⟩ }) = some ([[98], [97]], 3) := by
+  decide
+
+end StorageModel.Properties.C02
+
+#print axioms StorageModel.Properties.C02.paging_facts_expected
+#print axioms StorageModel.Properties.C02.comparator_strict_total
+#print axioms StorageModel.Properties.C02.order_closed_form
+#print axioms StorageModel.Properties.C02.order_lexicographic
+#print axioms StorageModel.Properties.C02.ties_broken_by_id
+#print axioms StorageModel.Properties.C02.nulls_first_ascending
+#print axioms StorageModel.Properties.C02.count_exact_any_comparator
+#print axioms StorageModel.Properties.C02.sort_characterised
+#print axioms StorageModel.Properties.C02.k_smallest_stream
+#print axioms StorageModel.Properties.C02.set_paging_exact
+#print axioms StorageModel.Properties.C02.set_paging_idempotent
+#print axioms StorageModel.Properties.C02.index_scan_exact
+#print axioms StorageModel.Properties.C02.sorting_scan_exact
+#print axioms StorageModel.Properties.C02.query_ids_exact
+#print axioms StorageModel.Properties.C02.cursor_provider_exact
+#print axioms StorageModel.Properties.C02.paging_tokens_exact
+#print axioms StorageModel.Properties.C02.strategy_independent
+#print axioms StorageModel.Properties.C02.count_exact
+#print axioms StorageModel.Properties.C02.cursor_iter_exact
+#print axioms StorageModel.Properties.C02.cursor_seek_exact
+#print axioms StorageModel.Properties.C02.pinned_arithmetic_violates
